@@ -36,8 +36,16 @@ pub fn size_of(ty: &str, class: u64) -> usize {
     }
 }
 
+/// an argument that becomes the valid value `v` when only its low 8/16/31/32/33 bits are kept
+pub fn alias(r: &mut Rng, v: u64) -> u64 {
+    let k = *r.pick(&[8u32, 16, 31, 32, 32, 33, 48, 63]);
+    let m = (1u64 << k) - 1;
+    (v & m) | match r.below(3) { 0 => 1u64 << k, 1 => !m, _ => (r.next() | 1) << k }
+}
+
 pub fn edge_off(r: &mut Rng, len: usize) -> u64 {
-    match r.below(8) {
+    match r.below(9) {
+        8 => { let v = r.below(len as u64 + 1); alias(r, v) }
         0 => u64::MAX - r.below(9),
         1 => r.edge64(),
         2 => len as u64 + r.below(10),
@@ -72,10 +80,15 @@ pub fn walk_script(r: &mut Rng, nent: usize) -> Value {
         }
     };
     for _ in 0..r.below(4) {
-        if r.chance(1, 2) { w.push(json!(["next", w8(0)])); } else { let k = kk(r); w.push(json!(["nth", w8(k)])); }
+        match r.below(5) {
+            0 | 1 => w.push(json!(["next", w8(0)])),
+            2 => w.push(json!(["size_hint", w8(0)])),
+            _ => { let k = kk(r); w.push(json!(["nth", w8(k)])); }
+        }
     }
     let k = kk(r);
-    w.push(match r.below(9) {
+    w.push(match r.below(10) {
+        9 if !big => json!(["collect", w8(0)]),
         0 if !big => json!(["rest", w8(0)]),
         1 if !big => json!(["fold", w8(0)]),
         2 | 3 => json!(["skip", w8(if big { k.max(nent as u64 - r.below(300)) } else { k })]),
@@ -159,8 +172,9 @@ pub fn run(fam: &str, seed: u64, n: u64, x: &mut Exec, sink: &mut Sink) {
                         3 if !big || k <= 1000 => script.push(json!(["into_iter"])),
                         2 | 3 => script.push(json!(["len"])),
                         _ => {
-                            let i = match r.below(6) {
+                            let i = match r.below(7) {
                                 0 => u64::MAX - r.below(3),
+                                5 => { let v = r.below(nent as u64 + 1); alias(&mut r, v) }
                                 1 => u64::MAX / sz as u64 + r.below(3),
                                 2 => r.edge64(),
                                 _ => r.below(nent as u64 + 3),
